@@ -555,6 +555,15 @@ fn onto_case(rng: &mut Rng, prop: &str, tier: &str, idx: usize) -> Case {
     if tier == "thorough" && idx < SMALL_SCOPE {
         return small_scope_case(prop, idx);
     }
+    if prop == "C02" && idx == 5 {
+        // 70 000 terms, one record of every kind directly annotated to each of them (record term
+        // lists beyond 65 535 entries), binary round trip and clone: implementation against the
+        // harness oracle only (beyond what the model can hold)
+        let mut c = Case::new("big-records-per-term");
+        c.op(format!("bigarena 70000 {}", rng.next()));
+        c.nontrivial = true;
+        return c;
+    }
     if prop == "C03" && idx % 100 == 51 {
         let (mut c, ok, _) = big_records_case(rng, (idx / 100 % 3) as u64, false);
         if ok {
@@ -767,6 +776,10 @@ fn c16(rng: &mut Rng, tier: &str, idx: usize) -> Case {
         c.stat("deep_chain_terms", n as u64);
         c.nontrivial = true;
         return c;
+    }
+    if idx % 5 == 2 {
+        // text route: the same facts in k renderings
+        return crate::gen_c09::text_orders(rng, if tier == "quick" { 3 } else { 5 });
     }
     if idx % 5 == 4 {
         // binary route: the same records in k different orders inside the sections of a v1/v2/v3
